@@ -463,9 +463,20 @@ func TestC10(t *testing.T) {
 				}
 				pool2 := []string{}
 				for _, sp := range mangledSpellings(tr2.Script, useBatch, now) {
-					if !used[sp] {
-						pool2 = append(pool2, sp)
+					variants := []string{sp}
+					if useBatch {
+						// cmd.exe folds case: the spelling in another case is the same name there
+						variants = append(variants, strings.ToLower(sp), strings.ToUpper(sp))
 					}
+					for _, v := range variants {
+						if _, kw := lexref.Keywords[v]; !kw && !used[v] && !now[v] {
+							pool2 = append(pool2, v)
+							used[v] = true
+						}
+					}
+				}
+				for _, v := range pool2 {
+					delete(used, v)
 				}
 				// spellings that belong to the identifiers renamed in the first step are preferred
 				pref := []string{}
